@@ -413,6 +413,19 @@ pub fn run(tier: Tier, seed: u64) -> i32 {
                             let l = lab(&format!("ls{}", fi));
                             calls.push((format!("login_start(pw{})", fi), Box::new(move || api.login_start(&mut Tape::new(&l), &f.p.pw).map(|(a, b)| vec![a, b]).map_err(e))));
                         }
+                        // near-miss server setups: the same setup with one byte of the OPRF seed changed (last byte; byte 8)
+                        let nhs = api.spec.nh();
+                        let mut near: Vec<Vec<u8>> = vec![];
+                        for pos in [nhs - 1, 8.min(nhs - 1), 0] {
+                            let mut s2 = fx.setup.clone();
+                            s2[pos] ^= 1;
+                            near.push(s2);
+                        }
+                        for (ni, s2) in near.into_iter().enumerate() {
+                            let cid = fx.p.cid.clone();
+                            let f = &fx;
+                            calls.push((format!("sreg_start(setup0 with seed variant {}, req0, cid0)", ni), Box::new(move || api.sreg_start(&Blob::n(&s2), &Blob::n(&f.reg.req), &cid).map(|x| vec![x]).map_err(e))));
+                        }
                         let n = calls.len();
                         let orders: Vec<Vec<usize>> = vec![(0..n).collect(), (0..n).rev().collect(), (0..n).map(|i| (i * 7 + 3) % n).collect()];
                         let mut seen: Vec<Option<Result<Vec<Vec<u8>>, String>>> = vec![None; n];
